@@ -223,10 +223,11 @@ func (fx *FuncExec) eval(st *State, e ast.Expr) Term {
 		case *types.Map:
 			mi := fx.reg.mapOf(u)
 			k := fx.evalTo(st, e.Index, u.Key())
-			// reading a nil map is allowed and yields the zero value
-			has := sel(sel(fx.H(st, mi.Dom), base.S), k.S)
+			// reading a nil map or an absent key yields the zero value: maps are
+			// kept closed (absent keys hold the zero value), see recordGoodHeap
+			fx.H(st, mi.Dom)
 			val := sel(sel(fx.H(st, mi.Val), base.S), k.S)
-			return Term{S: ite(has, val, fx.reg.Zero(mi.V)), Sort: mi.V, T: u.Elem()}
+			return Term{S: val, Sort: mi.V, T: u.Elem()}
 		case *types.Slice, *types.Array:
 			i := fx.eval(st, e.Index)
 			fx.oblige(st, "panic/index", "", and("(<= 0 "+i.S+")", "(< "+i.S+" (slen "+base.S+"))"), "index in range: "+trunc(exprString(e), 60), e.Pos())
@@ -462,7 +463,7 @@ func (fx *FuncExec) evalComposite(st *State, e *ast.CompositeLit, addr bool) Ter
 		mi := fx.reg.mapOf(u)
 		m := fx.alloc(st, mi.Sort, "maplit")
 		dom := "((as const (Array " + mi.K + " Bool)) false)"
-		val := sel(fx.H(st, mi.Val), m)
+		val := fx.reg.ZeroArr(mi.K, mi.V)
 		for _, el := range e.Elts {
 			kv := el.(*ast.KeyValueExpr)
 			k := fx.evalTo(st, kv.Key, u.Key())
@@ -506,7 +507,7 @@ func (fx *FuncExec) evalMulti(st *State, e ast.Expr) []Term {
 			k := fx.evalTo(st, e.Index, u.Key())
 			has := sel(sel(fx.H(st, mi.Dom), base.S), k.S)
 			val := sel(sel(fx.H(st, mi.Val), base.S), k.S)
-			return []Term{{S: ite(has, val, fx.reg.Zero(mi.V)), Sort: mi.V, T: u.Elem()}, {S: has, Sort: "Bool", T: types.Typ[types.Bool]}}
+			return []Term{{S: val, Sort: mi.V, T: u.Elem()}, {S: has, Sort: "Bool", T: types.Typ[types.Bool]}}
 		}
 	case *ast.TypeAssertExpr: // v, ok := x.(T)
 		v := fx.eval(st, e.X)
@@ -739,6 +740,7 @@ func (fx *FuncExec) mapDelete(st *State, mi *MapInfo, m, k string) {
 	fx.frameWrite(st, mi.Dom, m, fx.curPos)
 	st.guards = st.guards[:len(st.guards)-1]
 	fx.setH(st, mi.Dom, ite(cond, store(fx.H(st, mi.Dom), m, store(sel(fx.H(st, mi.Dom), m), k, "false")), fx.H(st, mi.Dom)))
+	fx.setH(st, mi.Val, ite(cond, store(fx.H(st, mi.Val), m, store(sel(fx.H(st, mi.Val), m), k, fx.reg.Zero(mi.V))), fx.H(st, mi.Val)))
 }
 
 var _ = strings.TrimSpace
